@@ -16,7 +16,7 @@ use crate::tick_math::*;
 use crate::swap_handlers::{Context, Account, Program, Token, UncheckedAccount, Clock, ClockData, now_unix, to_timestamp_u64, moved, transfer_from_vault_to_owner, Mint};
 use crate::swap_handlers::{Interface, TokenInterface, Memo, RemainingAccountsInfo, RemainingAccountsSlice, AccountsType, ParsedRemainingAccounts, parse_remaining_accounts, transfer_from_vault_to_owner_v2, memo_bytes};
 use crate::handlers_small::calculate_collect_reward_v2;
-use crate::authority::is_locked_position;
+use crate::authority::{is_locked_position, validate_owner};
 use crate::handlers_small::calculate_collect_reward;
 use crate::state_core::PositionRewardInfo;
 use crate::managers::{next_whirlpool_reward_infos, reward_infos_spec, next_growth};
@@ -241,6 +241,76 @@ pub open spec fn opened_ok(w: Account<'_, Whirlpool>, mint: Pubkey, lo_in: i32, 
         r is Ok ==> bundle_index < 256 && !bundle_open(old(ctx.accounts).position_bundle.data.position_bitmap, bundle_index as int)
             && (forall|j: int| 0 <= j < 256 ==> #[trigger] bundle_open(final(ctx.accounts).position_bundle.data.position_bitmap, j) == (j == bundle_index || bundle_open(old(ctx.accounts).position_bundle.data.position_bitmap, j))), //# C18
 //@ rewrite /emit!\(PositionOpened \{/ => /emit_position_opened(PositionOpened {/
+//@ end
+
+// ------------------------------------------------------------------ close_bundled_position / delete_position_bundle / transfer_locked_position
+//@ assume bundle / locked-transfer shims: burn_and_close_position_bundle_token, unfreeze_user_position_token_2022, transfer_user_position_token_2022, close_empty_token_account_2022 (token CPIs) are external stubs recording a fact each; `unreachable!` is a panic (the transaction fails)
+#[verifier::external_body]
+pub fn burn_and_close_position_bundle_token<'info>(position_bundle_authority: &Signer<'info>, receiver: &UncheckedAccount<'info>, position_bundle_mint: &Account<'info, Mint>, position_bundle_token_account: &Account<'info, TokenAccount>,
+    token_program: &Program<'info, Token>) -> (r: Result<()>)
+    ensures r is Ok ==> burned_by_cpi(position_bundle_token_account.k) { unimplemented!() }
+/// a panic aborts the instruction: modelled as an error return (logged rewrite of `unreachable!`)
+#[verifier::external_body]
+pub fn panic_abort<T>() -> (r: Result<T>) ensures r is Err { unimplemented!() }
+pub uninterp spec fn unfrozen_by_cpi(token_account: Pubkey) -> bool;
+pub uninterp spec fn nft_transferred(from: Pubkey, to: Pubkey) -> bool;
+#[verifier::external_body]
+pub fn unfreeze_user_position_token_2022<'info>(position_mint: &InterfaceAccount<'info, Mint>, position_token_account: &InterfaceAccount<'info, TokenAccount>, token_2022_program: &Program<'info, Token2022>,
+    position: &Account<'info, Position>, position_seeds: &[&[u8]]) -> (r: Result<()>)
+    ensures r is Ok ==> unfrozen_by_cpi(*position_token_account.info.key) { unimplemented!() }
+#[verifier::external_body]
+pub fn transfer_user_position_token_2022<'info>(position_authority: &Signer<'info>, position_mint: &InterfaceAccount<'info, Mint>, position_token_account: &InterfaceAccount<'info, TokenAccount>,
+    destination_token_account: &InterfaceAccount<'info, TokenAccount>, token_2022_program: &Program<'info, Token2022>) -> (r: Result<()>)
+    ensures r is Ok ==> nft_transferred(*position_token_account.info.key, *destination_token_account.info.key) { unimplemented!() }
+#[verifier::external_body]
+pub fn close_empty_token_account_2022<'info>(token_authority: &Signer<'info>, token_account: &InterfaceAccount<'info, TokenAccount>, token_2022_program: &Program<'info, Token2022>, receiver: &UncheckedAccount<'info>) -> (r: Result<()>) { unimplemented!() }
+impl LockConfig {
+//@ fn state/lock_config.rs update_position_owner in=/^impl LockConfig \{/
+    ensures *final(self) == (LockConfig { position_owner: position_owner, ..*old(self) }),
+//@ end
+}
+//@ struct instructions/close_bundled_position.rs CloseBundledPosition
+//@ constraints instructions/close_bundled_position.rs CloseBundledPosition
+/// C18 / C04: a bundled position is closed only on the signature of the holder of the BUNDLE's token (which is also this position's mint), only when it is empty,
+/// and the bundle's bitmap loses exactly this index
+//@ fn instructions/close_bundled_position.rs handler -> r as=close_bundled_position_handler tags=C18,C04 canary
+    requires constraints_CloseBundledPosition(old(ctx.accounts)),
+    ensures
+        r is Ok ==> old(ctx.accounts).position_bundle_token_account.data.mint == old(ctx.accounts).position_bundle.data.position_bundle_mint && old(ctx.accounts).position_bundle_token_account.data.amount == 1
+            && old(ctx.accounts).bundled_position.data.position_mint == old(ctx.accounts).position_bundle.data.position_bundle_mint, //# C04
+        r is Ok ==> authority_rule(old(ctx.accounts).position_bundle_token_account.data.owner, copt(old(ctx.accounts).position_bundle_token_account.data.delegate), old(ctx.accounts).position_bundle_token_account.data.delegated_amount,
+            *old(ctx.accounts).position_bundle_authority.info.key, old(ctx.accounts).position_bundle_authority.info.is_signer), //# C04
+        r is Ok ==> old(ctx.accounts).bundled_position.data.empty(), //# C18
+        r is Ok ==> bundle_index < 256 && bundle_open(old(ctx.accounts).position_bundle.data.position_bitmap, bundle_index as int)
+            && (forall|j: int| 0 <= j < 256 ==> #[trigger] bundle_open(final(ctx.accounts).position_bundle.data.position_bitmap, j) == (j != bundle_index && bundle_open(old(ctx.accounts).position_bundle.data.position_bitmap, j))), //# C18
+//@ end
+//@ struct instructions/delete_position_bundle.rs DeletePositionBundle
+//@ constraints instructions/delete_position_bundle.rs DeletePositionBundle
+/// C18 / C04: a bundle is deleted only when none of its 256 positions is open, by the signing OWNER of the bundle's token (no delegation), and the bundle token is burned
+//@ fn instructions/delete_position_bundle.rs handler -> r as=delete_position_bundle_handler tags=C18,C04 canary
+    requires constraints_DeletePositionBundle(old(ctx.accounts)),
+    ensures
+        r is Ok ==> (forall|j: int| 0 <= j < 256 ==> !#[trigger] bundle_open(old(ctx.accounts).position_bundle.data.position_bitmap, j)), //# C18
+        r is Ok ==> old(ctx.accounts).position_bundle_token_account.data.mint == old(ctx.accounts).position_bundle.data.position_bundle_mint && old(ctx.accounts).position_bundle_token_account.data.amount == 1
+            && old(ctx.accounts).position_bundle_token_account.data.owner == *old(ctx.accounts).position_bundle_owner.info.key && old(ctx.accounts).position_bundle_owner.info.is_signer, //# C04
+        r is Ok ==> old(ctx.accounts).position_bundle_mint.skey() == old(ctx.accounts).position_bundle.data.position_bundle_mint && burned_by_cpi(old(ctx.accounts).position_bundle_token_account.k), //# C18
+//@ end
+//@ struct instructions/transfer_locked_position.rs TransferLockedPosition
+//@ constraints instructions/transfer_locked_position.rs TransferLockedPosition
+/// C18 / C04: a locked position moves only on the signature of the OWNER of its token account (no delegate), to another account of the same mint; the token stays
+/// frozen at the destination and the lock config of THIS position records the new owner
+//@ fn instructions/transfer_locked_position.rs handler -> r as=transfer_locked_position_handler tags=C18,C04 canary
+    requires constraints_TransferLockedPosition(old(ctx.accounts)),
+    ensures
+        r is Ok ==> old(ctx.accounts).position_token_account.data.owner == *old(ctx.accounts).position_authority.info.key && old(ctx.accounts).position_authority.info.is_signer, //# C04
+        r is Ok ==> old(ctx.accounts).position_token_account.data.mint == old(ctx.accounts).position.data.position_mint && old(ctx.accounts).position_token_account.data.amount == 1
+            && old(ctx.accounts).destination_token_account.data.mint == old(ctx.accounts).position.data.position_mint && old(ctx.accounts).destination_token_account.skey() != old(ctx.accounts).position_token_account.skey(), //# C04
+        r is Ok ==> old(ctx.accounts).position_token_account.data.frozen, //# C18
+        r is Ok ==> old(ctx.accounts).lock_config.data.position == old(ctx.accounts).position.skey(), //# C18
+        r is Ok ==> nft_transferred(*old(ctx.accounts).position_token_account.info.key, *old(ctx.accounts).destination_token_account.info.key) && frozen_by_cpi(*old(ctx.accounts).destination_token_account.info.key), //# C18
+        r is Ok ==> final(ctx.accounts).lock_config.data == (LockConfig { position_owner: old(ctx.accounts).destination_token_account.data.owner, ..old(ctx.accounts).lock_config.data }), //# C18
+//@ rewrite /&\[\s*b"position"\.as_ref\(\),[^\]]*\[ctx\.bumps\.position\],\s*\]/ => /position_seeds_shim()/ 2
+//@ rewrite /unreachable!\("Position has to be locked for this instruction"\);/ => /return panic_abort();/
 //@ end
 
 // ------------------------------------------------------------------ v2 (token-extension aware) collect handlers
